@@ -26,7 +26,7 @@ fn class_of(c: char) -> CharClass {
     match c {
         'a' | 'e' | 'i' | 'o' | 'u' | 'y' => CharClass::Vowel,
         '0'..='9' => CharClass::NotAlpha,
-        'x' | 'ж' | '漢' => CharClass::Any,
+        'x' | 'ж' | '漢' | '𝐀' | '😀' => CharClass::Any,
         _ => CharClass::Consonant,
     }
 }
@@ -305,11 +305,15 @@ impl Prims {
             "metal", "mettle", "mailbox", "me", "m", "yellow", "shirt", "t", "wi", "fi", "the", "für", "ёлка", "a", "aa", "aaa", "aaaa", "abab", "baba", "", "ab",
             "straße", "œuvre", "t-shirt", "aab", "b",
         ];
-        let n = match cx.rng.below(4) {
-            0 => cx.rng.below(8),
-            1 => cx.rng.below(60),
+        let n = match cx.rng.below(40) {
+            0 => *cx.rng.pick(&[1023, 1024, 1025, 4096, 5000]),
+            1..=10 => cx.rng.below(8),
+            11..=20 => cx.rng.below(60),
             _ => cx.rng.below(400),
         };
+        if n > 1000 {
+            cx.count("stores of 1023-5000 records");
+        }
         let k = cx.rng.range(2, words.len());
         let recs: Vec<Rec> = (0..n)
             .map(|i| {
@@ -327,7 +331,13 @@ impl Prims {
                 2 => gen::any_word(&mut cx.rng, lang),
                 _ => cx.rng.pick(&words).chars().take(cx.rng.range(1, 2)).collect(),
             };
-            let size = cx.rng.below(6);
+            let size = if cx.rng.chance(1, 5) { *cx.rng.pick(&[6, 7, 8, 10, 13, 26, 50]) } else { cx.rng.below(6) };
+            let q = if cx.rng.chance(1, 12) {
+                // a query of 21-30 words (beyond the 20-slot buffers), many distinct grams
+                (0..cx.rng.range(21, 30)).map(|_| if cx.rng.chance(1, 2) { cx.rng.pick(&words).to_string() } else { gen::any_word(&mut cx.rng, lang) }).collect::<Vec<_>>().join(" ")
+            } else {
+                q
+            };
             self.index_check(cx, lang, &st, &recs.len(), &rgrams, &q, size, &json!(recs));
         }
     }
@@ -494,8 +504,8 @@ impl Prop for Prims {
     fn floors(&self) -> Vec<(&'static str, u64, u64)> {
         match self.0 {
             Which::Distance => vec![("exhaustive pairs", 100000, 2000000), ("prefix cells compared", 1000000, 20000000), ("pairs where a discount lowered the distance", 10000, 100000), ("random pairs beyond capacity 20", 500, 5000), ("long pairs with sampled prefix cells", 200, 2000), ("hook matrix growths", 3, 3), ("hook matrix max size", 50, 50)],
-            Which::Jaccard => vec![("exhaustive pairs", 100000, 1500000), ("pairs with partial overlap", 20000, 200000), ("pairs beyond the initial capacity of 20", 500, 5000), ("hook jaccard accesses", 100000, 1000000)],
-            Which::Index => vec![("prepare calls", 5000, 50000), ("capped calls", 500, 5000), ("calls with ties at the cut", 100, 1000), ("size 0", 300, 3000), ("corpus prepare calls", 200, 2000)],
+            Which::Jaccard => vec![("exhaustive pairs", 100000, 1500000), ("pairs with partial overlap", 20000, 200000), ("pairs beyond the initial capacity of 20", 500, 5000), ("random cases over a wide alphabet", 1000, 10000), ("hook jaccard accesses", 100000, 1000000)],
+            Which::Index => vec![("prepare calls", 5000, 50000), ("capped calls", 500, 5000), ("calls with ties at the cut", 100, 1000), ("size 0", 300, 3000), ("corpus prepare calls", 200, 2000), ("stores of 1023-5000 records", 50, 500)],
             Which::Unchecked => vec![("direct distance/similarity calls", 20000, 200000), ("direct calls beyond capacity 20", 5000, 50000), ("store-level searches", 5000, 50000), ("store-level rounds with 127-1500 records", 200, 2000), ("store-level rounds with clear and re-add", 500, 5000), ("direct call sequences with words of 76-420 letters", 200, 2000), ("hook matrix accesses", 1000000, 10000000), ("hook matrix growths", 3, 3), ("hook matrix max size", 50, 50), ("hook counter accesses", 10000, 100000), ("hook cost accesses", 100000, 1000000), ("hook jaccard accesses", 10000, 100000)],
         }
     }
@@ -517,7 +527,7 @@ impl Prop for Prims {
             }
             #[cfg(lucid_suggest_verif)]
             (Which::Distance, "random") => {
-                let alpha: Vec<char> = cv("aeiobcdf19xж");
+                let alpha: Vec<char> = if cx.rng.chance(1, 6) { cv("a𝐀e😀b1xжcd漢i") } else { cv("aeiobcdf19xж") };
                 // half of the cases run their whole call history on an instance of their own, so that
                 // growth steps (22 -> 34 -> 52 -> 79) are crossed thousands of times with different pasts
                 let own = if cx.rng.chance(1, 2) { Some(DamerauLevenshtein::new()) } else { None };
@@ -565,12 +575,25 @@ impl Prop for Prims {
             }
             #[cfg(lucid_suggest_verif)]
             (Which::Jaccard, "random") => {
-                let alpha = cv("abcdefghijklmnopqrstuvwxyzäöüßё");
+                let wide = cx.tier != Tier::Miri && cx.rng.chance(1, 8);
+                let alpha: Vec<char> = if wide {
+                    // more than 32 / 64 / 128 distinct symbols, code points above U+FFFF, equal low byte / low 16 bits
+                    let mut a: Vec<char> = cv("abcdefghijklmnopqrstuvwxyzäöüßё0123456789");
+                    a.extend((0..120u32).filter_map(|k| std::char::from_u32(0x400 + k)));
+                    a.extend((0..40u32).filter_map(|k| std::char::from_u32(0x10061 + k * 0x100)));
+                    a.extend((0..40u32).filter_map(|k| std::char::from_u32(0x1F600 + k)));
+                    a.extend((0..8u32).filter_map(|k| std::char::from_u32(0x161 + k * 0x100)));
+                    cx.count("random cases over a wide alphabet");
+                    a
+                } else {
+                    cv("abcdefghijklmnopqrstuvwxyzäöüßё")
+                };
                 for step in 0..(if cx.tier == Tier::Miri { 3 } else { 8 }) {
                     let k = cx.rng.range(1, alpha.len());
                     let long = (step + idx as usize) % 2 == 0;
-                    let n1 = if long { cx.rng.range(20, 60) } else { cx.rng.below(7) };
-                    let n2 = if cx.rng.chance(1, 2) { cx.rng.range(20, 60) } else { cx.rng.below(7) };
+                    let top = if wide { 400 } else { 60 };
+                    let n1 = if long { cx.rng.range(20, top) } else { cx.rng.below(7) };
+                    let n2 = if cx.rng.chance(1, 2) { cx.rng.range(20, top) } else { cx.rng.below(7) };
                     let s1: Vec<char> = (0..n1).map(|_| alpha[cx.rng.below(k)]).collect();
                     let s2: Vec<char> = if cx.rng.chance(1, 5) { let mut x = s1.clone(); cx.rng.shuffle(&mut x); x } else { (0..n2).map(|_| alpha[cx.rng.below(k)]).collect() };
                     private::check_jaccard(cx, &s1, &s2);
